@@ -40,14 +40,16 @@ def gen_case(rng, tier, idx):
     pol = []
     for s in range(v.N):
         acts = v.A[s]
-        k = rng.randint(1, len(acts))
+        k = rng.randint(1, len(acts)) if rng.random() < 0.4 else len(acts)
         sub = sorted(rng.sample(acts, k))
         pol.append([[a, p] for a, p in zip(sub, dyadic(rng, k))])
     term = set(rng.sample(range(v.N), rng.randint(1, min(3, v.N))))
     if rng.random() < 0.6:
         term |= set(v.absorbing)
+    nonterm = [s for s in range(v.N) if s not in term]
+    start = rng.choice(nonterm) if nonterm and rng.random() < 0.8 else rng.randrange(v.N)
     cfg = dict(kind=rng.choice(('simple', 'simple', 'plan')), pol=pol, term=sorted(term), max_steps=rng.choice((1, 2, 3, 5, 1000)),
-               rel=rng.choice((-1, 0, 1, 2)), nsim=rng.choice((1, 3, 8)), start=rng.randrange(v.N), seed=rng.choice((0, 3, 11)),
+               rel=rng.choice((-1, 0, 1, 2)), nsim=rng.choice((1, 3, 8)), start=start, seed=rng.choice((0, 3, 11)),
                include_abs=rng.random() < 0.5, clip=rng.choice((None, None, 0.0, -1.0)),
                override=sorted(rng.sample(COMPONENTS, rng.randint(0, 4))), optname=rng.choice(('o', 'opt-1', 'go')))
     plain = idx % 4 == 0
